@@ -3,7 +3,7 @@
    colours, lengths (Python's "g" formatting: the value is reproduced rounded to six significant digits whenever the
    writer does not switch to exponent notation), and the length-valued properties built from them. *)
 From TT Require Import Base.Prelude Base.ImscXml Model.ImscTime Model.TimeCode Model.ImscWrite Gen.ImscTables Spec.TtmlTimingSpec.
-From TT Require Import Proofs.C04.TimeSyntax Proofs.C05.Times Proofs.C12.Derived.
+From TT Require Import Spec.TtmlColorSpec Proofs.C04.Color Proofs.C04.TimeSyntax Proofs.C05.Times Proofs.C12.Derived.
 From Coq Require Import QArith Qabs Lqa.
 Local Open Scope Z_scope.
 
@@ -71,7 +71,7 @@ Proof.
   intro H. unfold hexpair. rewrite !hexval_hexd by lia. f_equal. lia.
 Qed.
 
-Lemma not_named rest : assoc_color named_colors (35 :: rest) = None.
+Lemma not_named rest : assoc_color named_colors (List.map lower (35 :: rest)) = None.
 Proof. reflexivity. Qed.
 
 Definition byte (c : Z) : Prop := 0 <= c < 256.
@@ -79,12 +79,43 @@ Definition byte (c : Z) : Prop := 0 <= c < 256.
 Theorem color_roundtrip r g b a : byte r -> byte g -> byte b -> byte a ->
   parse_color (print_color (r, g, b, a)) = Some (r, g, b, a).
 Proof.
-  intros Hr Hg Hb Ha. unfold print_color, hex2. cbn [app]. unfold parse_color. cbn [List.map].
-  replace (lower 35) with 35 by reflexivity. rewrite not_named.
-  rewrite (hexpair_hex2 r Hr), (hexpair_hex2 g Hg), (hexpair_hex2 b Hb).
+  intros Hr Hg Hb Ha. unfold print_color, hex2. cbn [app]. unfold parse_color. rewrite not_named.
+  cbn [strip_prefix]. change (35 =? 35) with true. cbv iota.
   destruct (a =? 255) eqn:E.
-  - apply Z.eqb_eq in E. subst a. reflexivity.
-  - cbn [app]. rewrite (hexpair_hex2 a Ha). reflexivity.
+  - apply Z.eqb_eq in E. subst a. cbn [hex_color]. unfold hex_color.
+    rewrite (hexpair_hex2 r Hr), (hexpair_hex2 g Hg), (hexpair_hex2 b Hb). reflexivity.
+  - cbn [app]. unfold hex_color. rewrite (hexpair_hex2 r Hr), (hexpair_hex2 g Hg), (hexpair_hex2 b Hb), (hexpair_hex2 a Ha). reflexivity.
+Qed.
+
+(* what the writer prints for a colour is a strict TTML2 <color> (Spec/TtmlColorSpec.v: "#rrggbb" or "#rrggbbaa", no white space) that
+   denotes the colour *)
+Theorem print_color_ttml r g b a : byte r -> byte g -> byte b -> byte a -> ttml_color (print_color (r, g, b, a)) (r, g, b, a).
+Proof.
+  intros Hr Hg Hb Ha.
+  assert (P : forall c, byte c -> is_hex_pair (hexd (c / 16), hexd (c mod 16)) = true /\ hex_pair_value (hexd (c / 16), hexd (c mod 16)) = c).
+  { intros c Hc. pose proof (hexpair_hex2 c Hc) as H. rewrite hexpair_spec in H.
+    destruct (is_hex_pair (hexd (c / 16), hexd (c mod 16))); [|discriminate]. split; [reflexivity|congruence]. }
+  destruct (P r Hr) as [Wr Vr], (P g Hg) as [Wg Vg], (P b Hb) as [Wb Vb], (P a Ha) as [Wa Va].
+  unfold print_color, hex2. destruct (a =? 255) eqn:E.
+  - apply Z.eqb_eq in E. subst a.
+    exists (AHex6 (hexd (r / 16), hexd (r mod 16)) (hexd (g / 16), hexd (g mod 16)) (hexd (b / 16), hexd (b mod 16))).
+    repeat split; [cbn [wf_color]; rewrite Wr, Wg, Wb; reflexivity|cbn [denote]; rewrite Vr, Vg, Vb; reflexivity].
+  - exists (AHex8 (hexd (r / 16), hexd (r mod 16)) (hexd (g / 16), hexd (g mod 16)) (hexd (b / 16), hexd (b mod 16)) (hexd (a / 16), hexd (a mod 16))).
+    repeat split; [cbn [wf_color]; rewrite Wr, Wg, Wb, Wa; reflexivity|cbn [denote]; rewrite Vr, Vg, Vb, Va; reflexivity].
+Qed.
+
+(* the colour properties: the reader stores a value for exactly the colour expressions of the grammar, and stores what they denote *)
+Theorem color_read_iff p s v : p = P_Color \/ p = P_BackgroundColor ->
+  (read_style p s = Some v <-> exists c, v = SColor c /\ color_expr s c).
+Proof.
+  intro Hp. assert (E : read_style p s = match parse_color s with Some c => Some (SColor c) | None => None end).
+  { unfold read_style, extract_style. destruct Hp; subst p.
+    - change ((P_Color =? P_BackgroundColor) || (P_Color =? P_Color)) with true. cbv iota. destruct (parse_color s); reflexivity.
+    - change ((P_BackgroundColor =? P_BackgroundColor) || (P_BackgroundColor =? P_Color)) with true. cbv iota. destruct (parse_color s); reflexivity. }
+  rewrite E. split.
+  - destruct (parse_color s) as [c|] eqn:Pc; [|discriminate]. intro H. inversion H; subst v. exists c. split; [reflexivity|].
+    apply parse_color_sound. exact Pc.
+  - intros (c & -> & Hc). rewrite (parse_color_complete _ _ Hc). reflexivity.
 Qed.
 
 Theorem color_style_roundtrip r g b a : byte r -> byte g -> byte b -> byte a ->
